@@ -46,6 +46,7 @@ UNIT = dict(
         "RateLimiterStateInner::try_acquire": dict(rules=[("addarg", ["try_acquire"], CT, 3)]),
         "SharedRateLimiter::acquire": dict(rules=[
             ("sub", "R8-lock", r"self\.state\.lock\(\)\.unwrap\(\)", "vx_lock(&self.state, clk)", 2),
+            ("R10r", -1),
             ("R3",),
             ("addarg", ["try_acquire"], CT, 2),
         ]),
